@@ -298,6 +298,48 @@ func runC15(c *core.Ctx) {
 	}
 	c.Sample(map[string]interface{}{"n": 33, "failing": []int{7, 31}, "expect": "error of leaf 7, nil hash"})
 
+	// ---- every leaf length 0..300 (thorough 0..1100): alone and as leaf 0 / leaf 3 of a 5-leaf tree ----
+	{
+		maxLeaf := 300
+		if c.Thorough() {
+			maxLeaf = 1100
+		}
+		core.Par(maxLeaf+1, func(l int) {
+			for _, hh := range []crypto.Hash{crypto.SHA256, crypto.SHA512, crypto.BLAKE2b_256} {
+				for _, shape := range [][2]int{{1, 0}, {5, 0}, {5, 3}} {
+					n, pos := shape[0], shape[1]
+					raw := c15Leaves(n, 4)
+					big := make([]byte, l)
+					for k := range big {
+						big[k] = byte(k*17 + l)
+					}
+					raw[pos] = big
+					data := make([]encoding.BinaryMarshaler, n)
+					for i := range data {
+						data[i] = &c15leaf{b: append([]byte{}, raw[i]...)}
+					}
+					got, err := merkle.NewHasher(hh).Hash(data)
+					c.Eval(1)
+					if want := refMerkleRoot(hh, raw); err != nil || !bytes.Equal(got, want) {
+						c.Violate("C15/leaf-length/root-differs", fmt.Sprintf("%v: %d leaves, leaf %d is %d bytes long: Hash=%x, reference %x", hh, n, pos, l, got, want), map[string]int{"n": n, "pos": pos, "len": l}, "", nil)
+					}
+					// a second list that differs only in the last byte of that leaf must hash differently
+					if l > 0 {
+						d2 := make([]encoding.BinaryMarshaler, n)
+						copy(d2, data)
+						alt := append([]byte{}, big...)
+						alt[l-1] ^= 1
+						d2[pos] = &c15leaf{b: alt}
+						if g2, _ := merkle.NewHasher(hh).Hash(d2); bytes.Equal(g2, got) {
+							c.Violate("C15/leaf-length/collision", fmt.Sprintf("%v: two lists differing in the last byte of a %d-byte leaf have the same root", hh, l), l, "", nil)
+						}
+					}
+				}
+			}
+		})
+		nontriv += int64(maxLeaf+1) * 9
+	}
+
 	// ---- histories on one Hasher: the result depends only on the leaves of the call, not on earlier calls ----
 	// all sequences of length <= 3 over {ok(n) for n in 0,1,2,3,5,8,33; fail(n, k) at first / middle / last leaf}, on one OS thread
 	type hop struct {
